@@ -444,6 +444,9 @@ func verifyAndFillConfig(cfg *ResponseConfig, nowMS int) error {
 			return fmt.Errorf("stop time %ds is too big", stopTimeS)
 		}
 	}
+	if cfg.StartNr != nil && (*cfg.StartNr < -1 || *cfg.StartNr > math.MaxUint32) {
+		return fmt.Errorf("start number %d is not in the range -1 to %d", *cfg.StartNr, math.MaxUint32)
+	}
 	if cfg.PeriodsPerHour != nil && (*cfg.PeriodsPerHour < 1 || *cfg.PeriodsPerHour > 3600) {
 		return fmt.Errorf("periods per hour %d is not in the range 1 to 3600", *cfg.PeriodsPerHour)
 	}
